@@ -31,6 +31,13 @@ def _unit_method(u, name):
     return cands[0] if len(cands) == 1 else None
 
 
+def _std_call(name, vals, n):
+    """std::min / std::max on plain integers"""
+    if name in ("min", "max") and len(vals) == 2 and all(isinstance(v, int) and not isinstance(v, bool) for v in vals):
+        return min(vals) if name == "min" else max(vals)
+    raise FD.Unknown("call to %s" % name, n)
+
+
 def _position_access(n, ev, st):
     """reads and writes of the history position, however it is reached (impl->history_pos, this->history_pos, history_pos)"""
     k = n.get("kind")
@@ -161,7 +168,7 @@ def run(ctx):
                     if k == "MemberExpr" and n.get("name") == "history":
                         return "HIST"
                     return NotImplemented
-                ev = FD.Eval(env={dist_id: dist}, node_hook=hook, max_steps=4000)
+                ev = FD.Eval(env={dist_id: dist}, node_hook=hook, call=_std_call, max_steps=4000)
                 try:
                     try:
                         ev.run(u.body(fs))
@@ -222,7 +229,7 @@ def run(ctx):
                     if k == "MemberExpr" and n.get("name") == "max_history_size":
                         return CAP
                     return NotImplemented
-                ev = FD.Eval(env={}, node_hook=hook, max_steps=4000)
+                ev = FD.Eval(env={}, node_hook=hook, call=_std_call, max_steps=4000)
                 try:
                     try:
                         ev.run(u.body(fr))
